@@ -187,6 +187,9 @@ func tcpStreamCase(sock *knxnet.TunnelSocket, conn net.Conn, frames [][]byte, du
 	case <-time.After(300 * time.Microsecond):
 	}
 	r.DistinctStr("tcp|" + how + "|" + fmt.Sprint(len(stream)) + "|" + fmt.Sprint(clipInts(chunks)))
+	if r.WantSample() && nStreams%37 == 5 {
+		r.Sample(map[string]interface{}{"kind": "tcp-inbound", "segmentation": how, "frames": len(frames), "stream_bytes": len(stream), "chunks": clipInts(chunks), "stream": hex.EncodeToString(clipB(stream))})
+	}
 	return true
 }
 
@@ -524,6 +527,9 @@ func outbound(rng *rand.Rand, tcp bool, G, per int) {
 		}
 	}
 	r.DistinctStr(fmt.Sprintf("out|%s|%d|%d", kind, G, per))
+	if r.WantSample() {
+		r.Sample(map[string]interface{}{"kind": "outbound", "socket": kind, "senders": G, "frames_per_sender": per, "frames_received": len(got.frames), "first_frame": hex.EncodeToString(clipB(got.frames[0]))})
+	}
 }
 
 func readFull(c net.Conn, b []byte) (int, error) {
@@ -776,6 +782,9 @@ func connectRequest(tcp, sendLocal bool) {
 		return
 	}
 	r.DistinctStr(sig)
+	if r.WantSample() {
+		r.Sample(map[string]interface{}{"kind": "connect-request", "scenario": sig, "frame": hex.EncodeToString(s.frame), "datagram_source": s.from.String()})
+	}
 }
 
 func run(rr *mon.Run) {
